@@ -678,7 +678,9 @@ func ruleC16Spelled(c *Checker) {
 		return
 	}
 	var clean ssa.Instruction
-	for _, ci := range callsTo(pk, func(o *types.Func) bool { return isFunc(o, "path/filepath", "Clean") || isFunc(o, "path/filepath", "Abs") }) {
+	for _, ci := range callsTo(pk, func(o *types.Func) bool {
+		return isFunc(o, "path/filepath", "Clean") || isFunc(o, "path/filepath", "Abs")
+	}) {
 		if clean == nil {
 			clean = ci
 		}
